@@ -2,15 +2,18 @@
 import z3
 
 from contracts.common import COLS, col, nof, sym_tree, sym_tree_fixed
+from pyvc import ext_C09 as X
 from pyvc.spec import Registry
-from pyvc.values import NArr, Obj, PDict, SArr, Sym, fresh_name, to_z3, zint
+from pyvc.values import NArr, Obj, PDict, PList, SArr, Sym, fresh_name, to_z3, zint
 
 NODE = "swcgeom/core/node.py"
 TREE = "swcgeom/core/tree.py"
 PATH = "swcgeom/core/path.py"
 BRANCH = "swcgeom/core/branch.py"
+COMP = "swcgeom/core/compartment.py"
 SWC = "swcgeom/core/swc.py"
 KEYS = list(COLS)
+OPTS = dict(models=X.MODELS)
 
 
 def node_obj(S, t, idx=None):
@@ -88,12 +91,31 @@ def register(R: Registry):
         n, key = nof(t), to_z3(o["key"], "int")
         return to_z3(r.fields["idx"], "int") == z3.If(key < 0, key + n, key)
 
-    R.add(f"{TREE}:Tree.__getitem__", prop="C09",
-          variants={"int": lambda S: dict(self=sym_tree(S, "t"), key=S.int("key"))},
-          raises={"IndexError": ("out-of-range-only", lambda E, v, o: z3.Or(to_z3(v["key"], "int") < -nof(v["self"]), to_z3(v["key"], "int") >= nof(v["self"])))},
-          ensures=[("in-range-accepted", lambda E, v, o: z3.And(to_z3(o["key"], "int") >= -nof(v["self"]), to_z3(o["key"], "int") < nof(v["self"]))),
-                   ("handle-on-this-tree-at-the-normalised-index", is_node)])
-    R.add(f"{TREE}:Tree.__getitem__#str", prop="C09") if False else None
+    def tree_slice_post(E, v, o):
+        from swcgeom.core.tree import Tree
+
+        t, h = v["self"], handles(v)
+        if h is None or h.cls_ is not Tree.Node or h.fixed.get("attach") is not t or h.fixed.get("names") is not t.fields["names"]:
+            return False
+        lo, st, cnt = slice_positions(o["key"], nof(t))
+        k = qj("k")
+        return z3.And(zint(h.n) == cnt, z3.ForAll([k], z3.Implies(z3.And(k >= 0, k < cnt), z3.Select(h.col("idx"), k) == lo + k * st)))
+
+    tgi_variants = {"int": lambda S: dict(self=sym_tree(S, "t"), key=S.int("key"))}
+    for nm in SLICES:
+        tgi_variants["slice " + nm] = (lambda S, _nm=nm: dict(self=sym_tree(S, "t"), key=slice_variants(S)[_nm]))
+    for k in KEYS:
+        tgi_variants["str " + k] = (lambda S, _k=k: dict(self=sym_tree(S, "t"), key=_k))
+    out_of_range = lambda E, v, o: z3.Or(to_z3(v["key"], "int") < -nof(v["self"]), to_z3(v["key"], "int") >= nof(v["self"]))
+    never = lambda E, v, o: False
+
+    R.add(f"{TREE}:Tree.__getitem__", prop="C09", variants=tgi_variants,
+          raises={"IndexError": ("out-of-range-only", by_form(out_of_range, never, never))},
+          ensures=[("in-range-accepted", by_form(lambda E, v, o: z3.And(to_z3(o["key"], "int") >= -nof(v["self"]), to_z3(o["key"], "int") < nof(v["self"])), None, None)),
+                   ("handle-on-this-tree-at-the-normalised-index", by_form(is_node, None, None)),
+                   ("slice-gives-the-handles-of-exactly-the-sliced-rows-in-order", by_form(None, tree_slice_post, None)),
+                   ("name-gives-the-column-itself", by_form(None, None, lambda E, v, o: v["result"] is col(v["self"], v["key"])))],
+          options=dict(OPTS))
 
     def str_variants():
         return {k: (lambda S, _k=k: dict(self=sym_tree(S, "t"), key=_k)) for k in KEYS}
@@ -179,17 +201,1003 @@ def register(R: Registry):
     # ------------------------------------------------------------ DictSWC.copy
     def copy_post(E, v, o):
         y, x = v["result"], o["self"]
-        if y is v["self"] or set(y.fields["ndata"].items) != set(x.fields["ndata"].items):
+        if y is v["self"] or not isinstance(y, Obj) or y.cls is not x.cls or y.uid in E.entry_uids or list(y.fields["ndata"].items) != list(x.fields["ndata"].items):
+            return False
+        if y.fields["ndata"].uid in E.entry_uids or y.fields.get("names") != x.fields["names"] or y.fields.get("source") != x.fields["source"]:
             return False
         j = z3.Int(fresh_name("j"))
         out = []
-        for k in KEYS:
+        for k in x.fields["ndata"].items:
             a, b = col(y, k), col(x, k)
-            if a.uid in E.entry_uids:
+            if a.uid in E.entry_uids or getattr(a, "view_of", None) is not None:
                 return False
             out.append(z3.And(a.nz() == b.nz(), z3.ForAll([j], z3.Implies(z3.And(j >= 0, j < b.nz()), z3.Select(a.arr, j) == z3.Select(b.arr, j)))))
-        return z3.And(*out)
+        uids = [a.uid for a in y.fields["ndata"].items.values()]
+        return z3.And(*out) if len(set(uids)) == len(uids) else False
 
     R.add(f"{SWC}:DictSWC.copy", prop="C09", pure_inline=True,
-          setup=lambda S: dict(self=sym_tree(S, "t")),
-          ensures=[("equal-content-in-fresh-storage", copy_post)])
+          variants={"a-Tree-(Tree.copy)": lambda S: dict(self=sym_tree(S, "t", extra_cols=("level",))),
+                    "a-plain-DictSWC": lambda S: dict(self=sym_tree(S, "t", cls=__import__("swcgeom.core.swc", fromlist=["DictSWC"]).DictSWC))},
+          ensures=[("equal-content-in-fresh-storage", copy_post),
+                   ("original-untouched", lambda E, v, o: unchanged(E, v["self"], o["self"]))])
+
+    register_path(R, path_obj)
+    register_handles(R, path_obj)
+    register_branch(R, path_obj)
+    register_tree(R)
+    register_swc(R, path_obj)
+
+
+
+# =====================================================================================================================
+# Path: the window itself (construction, length, indexing, re-indexed ids, iteration)
+def pidx(p):
+    return p.fields["idx"]
+
+
+def qj(name="j"):
+    return z3.Int(fresh_name(name))
+
+
+def slice_positions(sl, n):
+    """Python's sequence slicing s[a:b:st] on a sequence of length n (language reference, 'Slicings' / sequence types
+    note 5), st a concrete non-zero int or None: (first position, step, number of positions)."""
+    st = 1 if sl.step is None else sl.step
+
+    def norm(v, dflt, lo_clip, hi_clip):
+        if v is None:
+            return dflt
+        vz = to_z3(v, "int")
+        vz = z3.If(vz < 0, vz + n, vz)
+        return z3.If(vz < lo_clip, lo_clip, z3.If(vz > hi_clip, hi_clip, vz))
+
+    if st > 0:
+        lo, hi = norm(sl.start, z3.IntVal(0), z3.IntVal(0), n), norm(sl.stop, n, z3.IntVal(0), n)
+        cnt = z3.If(hi > lo, (hi - lo + (st - 1)) / st, z3.IntVal(0))
+    else:
+        lo, hi = norm(sl.start, n - 1, z3.IntVal(-1), n - 1), norm(sl.stop, z3.IntVal(-1), z3.IntVal(-1), n - 1)
+        cnt = z3.If(lo > hi, (lo - hi + (-st - 1)) / (-st), z3.IntVal(0))
+    return lo, st, cnt
+
+
+def slice_variants(S):
+    """the slice shapes verified (bounds symbolic, step concrete)"""
+    a, b = S.int("a"), S.int("b")
+    return {"a:b": slice(a, b), "a:": slice(a, None), ":b": slice(None, b), ":": slice(None, None), "a:b:1": slice(a, b, 1),
+            "a:b:2": slice(a, b, 2), "a:b:3": slice(a, b, 3), "::-1": slice(None, None, -1), "a:b:-1": slice(a, b, -1), "a:b:-2": slice(a, b, -2),
+            "a::-1": slice(a, None, -1), ":b:-1": slice(None, b, -1)}
+
+
+SLICES = ["a:b", "a:", ":b", ":", "a:b:1", "a:b:2", "a:b:3", "::-1", "a:b:-1", "a:b:-2", "a::-1", ":b:-1"]
+
+
+def by_form(int_c, slice_c, str_c):
+    def f(E, v, o):
+        key = o["key"] if o is not None else v["key"]
+        if isinstance(key, slice):
+            return slice_c(E, v, o) if slice_c else True
+        if isinstance(key, str):
+            return str_c(E, v, o) if str_c else True
+        return int_c(E, v, o) if int_c else True
+
+    return f
+
+def handles(v):
+    r = v["result"]
+    return X._handles_of(r)
+
+
+def register_path(R, path_obj):
+    from swcgeom.core.path import Path
+
+    def sym_path(S, frozen=True):
+        return path_obj(S, sym_tree(S, "t", frozen=frozen))
+
+    def idx_in_tree(E, v, o):
+        """precondition of every view: the positions the window refers to are rows of the owner"""
+        p = v["self"]
+        idx, t = pidx(p), p.fields["attach"]
+        j = qj()
+        return z3.ForAll([j], z3.Implies(z3.And(j >= 0, j < idx.nz()), z3.And(idx.get(j).z >= 0, idx.get(j).z < nof(t))))
+
+    PRE = [("window-positions-are-rows-of-the-owner", idx_in_tree)]
+
+    # ------------------------------------------------------------------ Path.__init__
+    def init_setup(form):
+        def f(S):
+            t = sym_tree(S, "t")
+            if form == "array":
+                idx = S.arr("int", name="ids")
+            elif form == "list":
+                idx = S.plist("int", name="ids")
+            else:
+                idx = PList([S.int(f"ids{k}") for k in range(3)])
+            idx.frozen = True
+            return dict(self=S.obj(Path), attach=t, idx=idx)
+
+        return f
+
+    def init_post(E, v, o):
+        p, t, src = v["self"], v["attach"], o["idx"]
+        a = p.fields.get("idx")
+        if p.fields.get("attach") is not t or p.fields.get("names") is not t.fields["names"] or p.fields.get("source") != t.fields["source"]:
+            return False
+        if not isinstance(a, (SArr, NArr)) or a.kind != "int" or a.uid in E.entry_uids or getattr(a, "view_of", None) is not None:
+            return False
+        if isinstance(a, NArr):
+            return z3.And(*[to_z3(x, "int") == to_z3(y, "int") for x, y in zip(a.items, src.items)]) if len(a.items) == len(src.items) else False
+        j = qj()
+        n0 = src.nz()
+        return z3.And(a.nz() == n0, z3.ForAll([j], z3.Implies(z3.And(j >= 0, j < n0), a.get(j).z == src.get(j).z)))
+
+    R.add(f"{PATH}:Path.__init__", prop="C09",
+          variants={f"idx-given-as-{form}": init_setup(form) for form in ("array", "list", "list-of-3")},
+          ensures=[("window-on-the-given-owner-with-a-private-copy-of-the-positions", init_post)])
+
+    # ------------------------------------------------------------------ Path.__len__
+    R.add(f"{PATH}:Path.__len__", prop="C09",
+          setup=lambda S: dict(self=sym_path(S)), requires=PRE,
+          ensures=[("number-of-window-positions", lambda E, v, o: to_z3(v["result"], "int") == pidx(v["self"]).nz())])
+
+    # ------------------------------------------------------------------ Path.node / get_node
+    # node(i) does not normalise i (path.node(-1) is the last node): the handle stands for the position i wraps to
+    def node_post(E, v, o):
+        r, p = v["result"], v["self"]
+        if not (isinstance(r, Obj) and r.cls is Path.Node and r.fields.get("attach") is p and r.fields.get("names") is p.fields["names"]):
+            return False
+        n, i, j = pidx(p).nz(), to_z3(o["idx"], "int"), to_z3(r.fields["idx"], "int")
+        return z3.And(j >= -n, j < n, z3.If(j < 0, j + n, j) == z3.If(i < 0, i + n, i))
+
+    for fn in ("node", "get_node"):
+        R.add(f"{PATH}:Path.{fn}", prop="C09",
+              setup=lambda S: dict(self=sym_path(S), idx=S.int("i")),
+              requires=PRE + [("position-in-[-len,len)", lambda E, v, o: z3.And(to_z3(v["idx"], "int") >= -pidx(v["self"]).nz(), to_z3(v["idx"], "int") < pidx(v["self"]).nz()))],
+              ensures=[("handle-on-this-path-standing-for-the-given-(wrapped)-position", node_post)])
+
+    # ------------------------------------------------------------------ Path.__getitem__
+    def key_out_of_range(E, v, o):
+        k, n = to_z3(v["key"], "int"), pidx(v["self"]).nz()
+        return z3.Or(k < -n, k >= n)
+
+    def item_post(E, v, o):
+        r, p = v["result"], v["self"]
+        if not (isinstance(r, Obj) and r.cls is Path.Node and r.fields.get("attach") is p and r.fields.get("names") is p.fields["names"]):
+            return False
+        k, n = to_z3(o["key"], "int"), pidx(p).nz()
+        return to_z3(r.fields["idx"], "int") == z3.If(k < 0, k + n, k)
+
+    def slice_post(E, v, o):
+        p, h = v["self"], handles(v)
+        if h is None or h.cls_ is not Path.Node or h.fixed.get("attach") is not p or h.fixed.get("names") is not p.fields["names"]:
+            return False
+        lo, st, cnt = slice_positions(o["key"], pidx(p).nz())
+        k = qj("k")
+        return z3.And(zint(h.n) == cnt, z3.ForAll([k], z3.Implies(z3.And(k >= 0, k < cnt), z3.Select(h.col("idx"), k) == lo + k * st)))
+
+    def str_post(E, v, o):
+        p = v["self"]
+        c = col(p.fields["attach"], v["key"])
+        idx, r = pidx(p), v["result"]
+        j = qj()
+        return z3.And(r.nz() == idx.nz(), r.uid not in E.entry_uids,
+                      z3.ForAll([j], z3.Implies(z3.And(j >= 0, j < idx.nz()), r.get(j).z == z3.Select(c.arr, idx.get(j).z))))
+
+    gi_variants = {"int": lambda S: dict(self=sym_path(S), key=S.int("key"))}
+    for nm in SLICES:
+        gi_variants["slice " + nm] = (lambda S, _nm=nm: dict(self=sym_path(S), key=slice_variants(S)[_nm]))
+    for k in KEYS:
+        gi_variants["str " + k] = (lambda S, _k=k: dict(self=sym_path(S), key=_k))
+
+    R.add(f"{PATH}:Path.__getitem__", prop="C09", variants=gi_variants, requires=PRE,
+          raises={"IndexError": ("only-an-integer-outside-[-len,len)", by_form(key_out_of_range, lambda E, v, o: False, lambda E, v, o: False))},
+          ensures=[("integer-in-[-len,len)-accepted", by_form(lambda E, v, o: z3.Not(key_out_of_range(E, o, o)), None, None)),
+                   ("integer-gives-the-handle-at-the-normalised-position", by_form(item_post, None, None)),
+                   ("slice-gives-the-handles-of-exactly-the-sliced-positions-in-order", by_form(None, slice_post, None)),
+                   ("name-gives-a-fresh-gather-of-the-owner-column-in-window-order", by_form(None, None, str_post))],
+          options=dict(OPTS))
+
+    # ------------------------------------------------------------------ Path.id / pid (re-indexed), origin_id / origin_pid
+    def arange_post(first):
+        def f(E, v, o):
+            r, n = v["result"], pidx(v["self"]).nz()
+            if not isinstance(r, SArr) or r.kind != "int" or r.uid in E.entry_uids:
+                return False
+            j = qj()
+            return z3.And(r.nz() == n, z3.ForAll([j], z3.Implies(z3.And(j >= 0, j < n), r.get(j).z == j + first)))
+
+        return f
+
+    R.add(f"{PATH}:Path.id", prop="C09", setup=lambda S: dict(self=sym_path(S)), requires=PRE,
+          ensures=[("window-positions-renumbered-0..len-1-in-a-fresh-array", arange_post(0))])
+    R.add(f"{PATH}:Path.pid", prop="C09", setup=lambda S: dict(self=sym_path(S)), requires=PRE,
+          ensures=[("each-position-has-its-predecessor-as-parent-first-has--1-in-a-fresh-array", arange_post(-1))])
+
+    def origin_post(which):
+        def f(E, v, o):
+            p = v["self"]
+            c = col(p.fields["attach"], which)
+            idx, r = pidx(p), v["result"]
+            j = qj()
+            return z3.And(r.nz() == idx.nz(), r.uid not in E.entry_uids,
+                          z3.ForAll([j], z3.Implies(z3.And(j >= 0, j < idx.nz()), r.get(j).z == z3.Select(c.arr, idx.get(j).z))))
+
+        return f
+
+    R.add(f"{PATH}:Path.origin_id", prop="C09", setup=lambda S: dict(self=sym_path(S)), requires=PRE,
+          ensures=[("the-owner's-ids-of-the-window-rows-in-order", origin_post("id"))])
+    R.add(f"{PATH}:Path.origin_pid", prop="C09", setup=lambda S: dict(self=sym_path(S)), requires=PRE,
+          ensures=[("the-owner's-parent-ids-of-the-window-rows-in-order", origin_post("pid"))])
+
+    # ------------------------------------------------------------------ Path.keys
+    def keys_post(E, v, o):
+        r, t = v["result"], v["self"].fields["attach"]
+        return isinstance(r, PList) and r.items == list(t.fields["ndata"].items.keys())
+
+    R.add(f"{PATH}:Path.keys", prop="C09", setup=lambda S: dict(self=path_obj(S, sym_tree(S, "t", extra_cols=("level",)))),
+          ensures=[("exactly-the-owner's-column-names-in-the-owner's-order", keys_post)])
+
+    # ------------------------------------------------------------------ Path.__iter__
+    def iter_post(E, v, o):
+        p, h = v["self"], handles(v)
+        if h is None or h.cls_ is not Path.Node or h.fixed.get("attach") is not p or h.fixed.get("names") is not p.fields["names"]:
+            return False
+        k, n = qj("k"), pidx(p).nz()
+        return z3.And(zint(h.n) == n, z3.ForAll([k], z3.Implies(z3.And(k >= 0, k < n), z3.Select(h.col("idx"), k) == k)))
+
+    R.add(f"{PATH}:Path.__iter__", prop="C09", setup=lambda S: dict(self=sym_path(S)), requires=PRE,
+          ensures=[("one-handle-per-window-position-in-order", iter_post)], options=dict(OPTS))
+
+    # ------------------------------------------------------------------ Path.detach
+    R.add(f"{PATH}:Path.detach", prop="C09",
+          setup=lambda S: dict(self=path_obj(S, sym_tree(S, "t", extra_cols=("level",)))), requires=PRE,
+          ensures=detach_clauses(Path, window_len=lambda p: pidx(p).nz(), window_pos=lambda p, j: pidx(p).get(j).z), options=dict(OPTS))
+
+
+def owned_arrays(x):
+    """every array reachable from a detached view: its position array and the columns of its private owner"""
+    return [x.fields["idx"]] + list(x.fields["attach"].fields["ndata"].items.values())
+
+
+def fresh_and_separate(E, arrs):
+    """ownership: every array was allocated by this call (not an input's storage, not a view onto anything) and no two share storage"""
+    uids = [a.uid for a in arrs]
+    return all(isinstance(a, (SArr, NArr)) and a.uid not in E.entry_uids and getattr(a, "view_of", None) is None for a in arrs) and len(set(uids)) == len(uids)
+
+
+def unchanged(E, now, old):
+    """the owner's columns are the same allocations with the same content as at entry, and the same set of columns"""
+    nd1, nd0 = now.fields["ndata"].items, old.fields["ndata"].items
+    if list(nd1) != list(nd0):
+        return False
+    out = []
+    for k in nd1:
+        a1, a0 = nd1[k], nd0[k]
+        if a1.uid != a0.uid:
+            return False
+        if isinstance(a1, SArr):
+            out.append(z3.And(a1.nz() == a0.nz(), a1.arr == a0.arr))
+        else:
+            out.append(z3.And(*[to_z3(x, a1.kind) == to_z3(y, a1.kind) for x, y in zip(a1.items, a0.items)]) if len(a1.items) == len(a0.items) else False)
+    return z3.And(*out)
+
+
+def detach_clauses(cls, window_len, window_pos, owner_of=lambda p: p.fields["attach"]):
+    """postconditions shared by Path.detach / Branch.detach: `window_len(p)` positions, the j-th being row `window_pos(p, j)` of the owner"""
+    from swcgeom.core.swc import DictSWC
+
+    def shape(E, v, o):
+        r, p = v["result"], v["self"]
+        if not (isinstance(r, Obj) and r.cls is cls and isinstance(r.fields.get("attach"), Obj) and r.fields["attach"].cls is DictSWC):
+            return False
+        a = r.fields["attach"]
+        return (r is not p and a is not owner_of(p) and a.uid not in E.entry_uids and r.fields.get("names") is p.fields["names"] and a.fields.get("names") is p.fields["names"]
+                and a.fields.get("source") == p.fields["source"] and r.fields.get("source") == p.fields["source"]
+                and list(a.fields["ndata"].items) == list(owner_of(p).fields["ndata"].items))
+
+    def content(E, v, o):
+        r, p = v["result"], o["self"]
+        t, n = owner_of(p), window_len(p)
+        nd = r.fields["attach"].fields["ndata"].items
+        j = qj()
+        out = []
+        for k, a in nd.items():
+            if not isinstance(a, SArr):
+                return False
+            if k == "id":
+                want = lambda jj: jj
+            elif k == "pid":
+                want = lambda jj: jj - 1
+            else:
+                want = lambda jj, _c=col(t, k): to_z3(_c.get(window_pos(p, jj)), a.kind)
+            out.append(z3.And(a.nz() == n, z3.ForAll([j], z3.Implies(z3.And(j >= 0, j < n), a.get(j).z == want(j)))))
+        return z3.And(*out)
+
+    def positions(E, v, o):
+        r, n = v["result"], window_len(o["self"])
+        a, j = r.fields["idx"], qj()
+        return z3.And(a.nz() == n, z3.ForAll([j], z3.Implies(z3.And(j >= 0, j < n), a.get(j).z == j)))
+
+    return [("a-new-view-of-the-same-class-on-a-private-DictSWC-with-the-owner's-columns", shape),
+            ("every-column-equals-the-window's-rows-in-order-ids-renumbered", content),
+            ("the-new-window-is-all-of-its-private-owner-in-order", positions),
+            ("fresh-storage-nothing-shared-with-the-original-or-between-columns", lambda E, v, o: fresh_and_separate(E, owned_arrays(v["result"]))),
+            ("original-view-and-owner-untouched", lambda E, v, o: z3.And(unchanged(E, owner_of(v["self"]), owner_of(o["self"])), pidx(v["self"]).uid == pidx(o["self"]).uid, pidx(v["self"]).arr == pidx(o["self"]).arr))]
+
+
+# =====================================================================================================================
+# handles with a wrapped (negative) position, and handles of a path
+def register_handles(R, path_obj):
+    from swcgeom.core.path import Path
+    from swcgeom.core.tree import Tree
+
+    LOOSE = dict(strict_index=False)  # a negative position is numpy's wrapped index, not an error
+
+    def wrapped(i, n):
+        return z3.If(i < 0, i + n, i)
+
+    def any_position(E, v, o):
+        n = v["self"]
+        i = to_z3(n.fields["idx"], "int")
+        return z3.And(i >= -nof(n.fields["attach"]), i < nof(n.fields["attach"]))
+
+    # Tree.node(i) does not normalise i: a handle may carry a position in [-n, 0); every access then wraps like numpy
+    def reads_wrapped(E, v, o):
+        n = v["self"]
+        c = col(n.fields["attach"], v["key"])
+        return to_z3(v["result"], c.kind) == z3.Select(c.arr, wrapped(to_z3(n.fields["idx"], "int"), c.nz()))
+
+    R.add(f"{NODE}:Node.__getitem__", prop="C09", pure_inline=True,
+          variants={k: (lambda S, _k=k: dict(self=node_obj(S, sym_tree(S, "t", frozen=True)), key=_k)) for k in KEYS},
+          requires=[("handle-position-in-[-n,n)", any_position)],
+          ensures=[("reads-the-owner-column-at-the-wrapped-position-at-call-time", reads_wrapped)], options=dict(LOOSE))
+
+    def writes_wrapped(E, v, o):
+        n, n0 = v["self"], o["self"]
+        t, t0 = n.fields["attach"], n0.fields["attach"]
+        i = wrapped(to_z3(n0.fields["idx"], "int"), nof(t0))
+        j = qj()
+        out = []
+        for c in KEYS:
+            a1, a0 = col(t, c), col(t0, c)
+            if a1.uid != a0.uid:
+                return False
+            rng = z3.And(j >= 0, j < nof(t0))
+            if c == v["k"]:
+                out.append(z3.And(z3.Select(a1.arr, i) == to_z3(v["v"], a1.kind), z3.ForAll([j], z3.Implies(z3.And(rng, j != i), z3.Select(a1.arr, j) == z3.Select(a0.arr, j)))))
+            else:
+                out.append(z3.ForAll([j], z3.Implies(rng, z3.Select(a1.arr, j) == z3.Select(a0.arr, j))))
+        return z3.And(*out)
+
+    R.add(f"{NODE}:Node.__setitem__", prop="C09", pure_inline=True,
+          variants={k: (lambda S, _k=k: dict(self=node_obj(S, sym_tree(S, "t", frozen=False)), k=_k, v=(S.int("v") if COLS[_k] == "int" else S.real("v")))) for k in KEYS},
+          requires=[("handle-position-in-[-n,n)", any_position)],
+          ensures=[("write-through-at-the-wrapped-position-and-nothing-else", writes_wrapped)], options=dict(LOOSE))
+
+    def parent_wrapped(E, v, o):
+        n = v["self"]
+        t = n.fields["attach"]
+        p = z3.Select(col(t, "pid").arr, wrapped(to_z3(n.fields["idx"], "int"), nof(t)))
+        r = v["result"]
+        if r is None:
+            return p == -1
+        return z3.And(p != -1, r.cls is Tree.Node, r.fields["attach"] is t, to_z3(r.fields["idx"], "int") == p)
+
+    R.add(f"{TREE}:Tree.Node.parent", prop="C09",
+          setup=lambda S: dict(self=node_obj(S, sym_tree(S, "t"))),
+          requires=[("handle-position-in-[-n,n)", any_position)],
+          ensures=[("handle-on-the-parent-of-the-wrapped-row-or-none-for-a-root", parent_wrapped)], options=dict(LOOSE))
+
+    # a node of a path: position i of the window, i.e. row idx[i] of the owner
+    def pnode(S):
+        p = path_obj(S, sym_tree(S, "t", frozen=True))
+        return S.obj(Path.Node, attach=p, idx=S.int("i"), names=p.fields["names"])
+
+    def pnode_pre(E, v, o):
+        h = v["self"]
+        p = h.fields["attach"]
+        idx, t, i = pidx(p), p.fields["attach"], to_z3(h.fields["idx"], "int")
+        j = qj()
+        return z3.And(i >= -idx.nz(), i < idx.nz(), z3.ForAll([j], z3.Implies(z3.And(j >= 0, j < idx.nz()), z3.And(idx.get(j).z >= 0, idx.get(j).z < nof(t)))))
+
+    def pnode_reads(E, v, o):
+        h = v["self"]
+        p = h.fields["attach"]
+        c = col(p.fields["attach"], v["key"])
+        i = wrapped(to_z3(h.fields["idx"], "int"), pidx(p).nz())
+        return to_z3(v["result"], c.kind) == z3.Select(c.arr, pidx(p).get(i).z)
+
+    R.add(f"{NODE}:Node.__getitem__", prop="C09", pure_inline=True,
+          variants={k: (lambda S, _k=k: dict(self=pnode(S), key=_k)) for k in KEYS},
+          requires=[("position-within-the-window-window-within-the-owner", pnode_pre)],
+          ensures=[("path-node-reads-the-owner's-row-its-window-position-names-at-call-time", pnode_reads)], options=dict(LOOSE))
+
+    # ------------------------------------------------------------------ Node.detach / xyz / xyzr / keys
+    from swcgeom.core.node import Node
+    from swcgeom.core.swc import DictSWC
+
+    def tnode(S):
+        return node_obj(S, sym_tree(S, "t", frozen=True, extra_cols=("level",)))
+
+    def pnode_x(S):
+        p = path_obj(S, sym_tree(S, "t", frozen=True, extra_cols=("level",)))
+        return S.obj(Path.Node, attach=p, idx=S.int("i"), names=p.fields["names"])
+
+    def node_pre(E, v, o):
+        return pnode_pre(E, v, o) if v["self"].cls is Path.Node else in_range(E, v, o)
+
+    def owner_and_row(h):
+        """(the DictSWC that finally owns the data, the row of it the handle stands for)"""
+        a, i = h.fields["attach"], to_z3(h.fields["idx"], "int")
+        if a.cls is Tree or "ndata" in a.fields:
+            return a, i
+        return a.fields["attach"], pidx(a).get(wrapped(i, pidx(a).nz())).z
+
+    def node_detach_shape(E, v, o):
+        r, h = v["result"], v["self"]
+        t, _ = owner_and_row(h)
+        if not (isinstance(r, Obj) and r.cls is Node and r is not h and isinstance(r.fields.get("attach"), Obj) and r.fields["attach"].cls is DictSWC):
+            return False
+        a = r.fields["attach"]
+        return (a.uid not in E.entry_uids and r.fields.get("idx") == 0 and r.fields.get("names") is h.fields["names"] and a.fields.get("names") is h.fields["names"]
+                and a.fields.get("source") == h.fields["attach"].fields["source"] and list(a.fields["ndata"].items) == list(t.fields["ndata"].items))
+
+    def node_detach_content(E, v, o):
+        r, h = v["result"], o["self"]
+        t, row = owner_and_row(h)
+        out = []
+        for k, a in r.fields["attach"].fields["ndata"].items.items():
+            if not (isinstance(a, NArr) and a.shape == (1,)):
+                return False
+            want = z3.IntVal(0) if k == "id" else (z3.IntVal(-1) if k == "pid" else z3.Select(col(t, k).arr, row))
+            out.append(to_z3(a.items[0], a.kind) == want)
+        return z3.And(*out)
+
+    R.add(f"{NODE}:Node.detach", prop="C09",
+          variants={"tree-node": lambda S: dict(self=tnode(S)), "path-node": lambda S: dict(self=pnode_x(S))},
+          requires=[("handle-refers-to-a-row-of-its-owner", node_pre)],
+          ensures=[("a-plain-Node-at-position-0-of-a-private-one-row-DictSWC-with-the-owner's-columns", node_detach_shape),
+                   ("every-column-holds-the-node's-value-id-0-parent--1", node_detach_content),
+                   ("fresh-storage-nothing-shared-with-the-original-or-between-columns", lambda E, v, o: fresh_and_separate(E, list(v["result"].fields["attach"].fields["ndata"].items.values()))),
+                   ("original-owner-untouched", lambda E, v, o: unchanged(E, owner_and_row(v["self"])[0], owner_and_row(o["self"])[0]))],
+          options=dict(LOOSE))
+
+    def vec_post(names):
+        def f(E, v, o):
+            r, h = v["result"], v["self"]
+            t, row = owner_and_row(h)
+            if not (isinstance(r, NArr) and r.shape == (len(names),) and r.kind == "real" and r.uid not in E.entry_uids and r.view_of is None):
+                return False
+            return z3.And(*[to_z3(x, "real") == z3.Select(col(t, k).arr, row) for x, k in zip(r.items, names)])
+
+        return f
+
+    for fn, names in (("xyz", ("x", "y", "z")), ("xyzr", ("x", "y", "z", "r"))):
+        R.add(f"{NODE}:Node.{fn}", prop="C09",
+              variants={"tree-node": lambda S: dict(self=tnode(S)), "path-node": lambda S: dict(self=pnode_x(S))},
+              requires=[("handle-refers-to-a-row-of-its-owner", node_pre)],
+              ensures=[(f"fresh-vector-of-the-node's-{'-'.join(names)}-read-at-call-time", vec_post(names))], options=dict(LOOSE))
+
+    def nkeys_post(E, v, o):
+        r = v["result"]
+        t, _ = owner_and_row(v["self"])
+        return isinstance(r, PList) and r.items == list(t.fields["ndata"].items.keys())
+
+    R.add(f"{NODE}:Node.keys", prop="C09",
+          variants={"tree-node": lambda S: dict(self=tnode(S)), "path-node": lambda S: dict(self=pnode_x(S))},
+          ensures=[("exactly-the-owner's-column-names-in-the-owner's-order", nkeys_post)])
+
+
+# =====================================================================================================================
+# Branch / Compartment / Compartments
+def register_branch(R, path_obj):
+    from swcgeom.core.branch import Branch
+    from swcgeom.core.compartment import Compartment, Compartments
+    from swcgeom.core.swc import DictSWC
+    from swcgeom.core.tree import Tree
+
+    def sym_branch(S, extra=False):
+        return path_obj(S, sym_tree(S, "t", frozen=True, extra_cols=(("level",) if extra else ())), cls=Tree.Branch)
+
+    def idx_in_tree(E, v, o):
+        p = v["self"]
+        idx, t = pidx(p), p.fields["attach"]
+        if isinstance(idx, NArr):
+            return z3.And(*[z3.And(to_z3(x, "int") >= 0, to_z3(x, "int") < nof(t)) for x in idx.items])
+        j = qj()
+        return z3.ForAll([j], z3.Implies(z3.And(j >= 0, j < idx.nz()), z3.And(idx.get(j).z >= 0, idx.get(j).z < nof(t))))
+
+    PRE = [("window-positions-are-rows-of-the-owner", idx_in_tree)]
+
+    def gathers(E, v, o):
+        p = v["self"]
+        c = col(p.fields["attach"], v["key"])
+        idx, r = pidx(p), v["result"]
+        j = qj()
+        return z3.And(r.nz() == idx.nz(), r.uid not in E.entry_uids,
+                      z3.ForAll([j], z3.Implies(z3.And(j >= 0, j < idx.nz()), r.get(j).z == z3.Select(c.arr, idx.get(j).z))))
+
+    R.add(f"{BRANCH}:Branch.get_ndata", prop="C09",
+          variants={k: (lambda S, _k=k: dict(self=sym_branch(S), key=_k)) for k in KEYS}, requires=PRE,
+          ensures=[("fresh-gather-of-the-owner-column-in-order", gathers)])
+
+    def keys_post(E, v, o):
+        r, t = v["result"], v["self"].fields["attach"]
+        return isinstance(r, PList) and r.items == list(t.fields["ndata"].items.keys())
+
+    R.add(f"{BRANCH}:Branch.keys", prop="C09", setup=lambda S: dict(self=sym_branch(S, extra=True)),
+          ensures=[("exactly-the-owner's-column-names-in-the-owner's-order", keys_post)])
+
+    R.add(f"{BRANCH}:Branch.detach", prop="C09", setup=lambda S: dict(self=sym_branch(S, extra=True)), requires=PRE,
+          ensures=detach_clauses(Branch, window_len=lambda p: pidx(p).nz(), window_pos=lambda p, j: pidx(p).get(j).z), options=dict(OPTS))
+
+    # ------------------------------------------------------------------ Branch.get_compartments / get_segments, any length
+    def pairs_post(E, v, o):
+        br, res = v["self"], v["result"]
+        h = X._handles_of(res)
+        if not (isinstance(res, Obj) and res.cls is Compartments) or h is None or h.cls_ is not Branch.Compartment or h.fixed.get("attach") is not br:
+            return False
+        if "idx" not in h.vecs or h.vecs["idx"][0] != (2,):
+            return False
+        n, k = pidx(br).nz(), qj("k")
+        cnt = z3.If(n >= 1, n - 1, z3.IntVal(0))
+        # compartment k reports, for every key, branch.get_ndata(key)[[k, k+1]]: its window onto the branch is (k, k+1)
+        return z3.And(zint(h.n) == cnt, z3.ForAll([k], z3.Implies(z3.And(k >= 0, k < cnt), z3.And(z3.Select(h.vec("idx", 0), k) == k, z3.Select(h.vec("idx", 1), k) == k + 1))))
+
+    for fn in ("get_compartments", "get_segments"):
+        R.add(f"{BRANCH}:Branch.{fn}", prop="C09", setup=lambda S: dict(self=sym_branch(S)), requires=PRE,
+              ensures=[("segments-are-the-consecutive-node-pairs-in-order", pairs_post)], options=dict(OPTS))
+
+    # ------------------------------------------------------------------ Compartment
+    def comp_init_post(E, v, o):
+        c, a = v["self"], v["attach"]
+        i = c.fields.get("idx")
+        if c.fields.get("attach") is not a or c.fields.get("names") is not a.fields["names"] or c.fields.get("source") != a.fields["source"]:
+            return False
+        if not (isinstance(i, NArr) and i.shape == (2,) and i.kind == "int" and i.uid not in E.entry_uids and i.view_of is None):
+            return False
+        return z3.And(to_z3(i.items[0], "int") == to_z3(o["pid"], "int"), to_z3(i.items[1], "int") == to_z3(o["idx"], "int"))
+
+    R.add(f"{COMP}:Compartment.__init__", prop="C09",
+          variants={"on-a-tree": lambda S: dict(self=S.obj(Tree.Compartment), attach=sym_tree(S, "t"), pid=S.int("p"), idx=S.int("c")),
+                    "on-a-branch": lambda S: dict(self=S.obj(Branch.Compartment), attach=sym_branch(S), pid=S.int("p"), idx=S.int("c"))},
+          ensures=[("two-position-window-(parent,child)-on-the-given-owner", comp_init_post)])
+
+    def sym_comp(S, extra=False, cls=None):
+        return path_obj(S, sym_tree(S, "t", frozen=True, extra_cols=(("level",) if extra else ())), cls=cls or Tree.Compartment, L=2)
+
+    def comp_gathers(E, v, o):
+        c, r = v["self"], v["result"]
+        cl = col(c.fields["attach"], v["key"])
+        if not (isinstance(r, NArr) and r.shape == (2,) and r.uid not in E.entry_uids and r.view_of is None):
+            return False
+        return z3.And(*[to_z3(x, cl.kind) == z3.Select(cl.arr, to_z3(p, "int")) for x, p in zip(r.items, pidx(c).items)])
+
+    R.add(f"{COMP}:Compartment.get_ndata", prop="C09",
+          variants={k: (lambda S, _k=k: dict(self=sym_comp(S), key=_k)) for k in KEYS}, requires=PRE,
+          ensures=[("fresh-pair-(parent-value,child-value)-of-the-owner-column", comp_gathers)])
+
+    R.add(f"{COMP}:Compartment.keys", prop="C09", setup=lambda S: dict(self=sym_comp(S, extra=True)),
+          ensures=[("exactly-the-owner's-column-names-in-the-owner's-order", keys_post)])
+
+    def comp_detach_shape(E, v, o):
+        r, c = v["result"], v["self"]
+        if not (isinstance(r, Obj) and r.cls is Compartment and r is not c and isinstance(r.fields.get("attach"), Obj) and r.fields["attach"].cls is DictSWC):
+            return False
+        a, i = r.fields["attach"], r.fields.get("idx")
+        return (a.uid not in E.entry_uids and r.fields.get("names") is c.fields["names"] and a.fields.get("names") is c.fields["names"]
+                and a.fields.get("source") == c.fields["attach"].fields["source"] and list(a.fields["ndata"].items) == list(c.fields["attach"].fields["ndata"].items)
+                and isinstance(i, NArr) and i.shape == (2,) and [x for x in i.items] == [0, 1])
+
+    def comp_detach_content(E, v, o):
+        r, c = v["result"], o["self"]
+        t = c.fields["attach"]
+        out = []
+        for k, a in r.fields["attach"].fields["ndata"].items.items():
+            if not (isinstance(a, NArr) and a.shape == (2,)):
+                return False
+            for pos in (0, 1):
+                want = z3.IntVal(pos) if k == "id" else (z3.IntVal(pos - 1) if k == "pid" else z3.Select(col(t, k).arr, to_z3(pidx(c).items[pos], "int")))
+                out.append(to_z3(a.items[pos], a.kind) == want)
+        return z3.And(*out)
+
+    R.add(f"{COMP}:Compartment.detach", prop="C09", setup=lambda S: dict(self=sym_comp(S, extra=True)), requires=PRE,
+          ensures=[("a-plain-Compartment-(0,1)-on-a-private-two-row-DictSWC-with-the-owner's-columns", comp_detach_shape),
+                   ("every-column-holds-(parent-value,child-value)-ids-renumbered", comp_detach_content),
+                   ("fresh-storage-nothing-shared-with-the-original-or-between-columns", lambda E, v, o: fresh_and_separate(E, owned_arrays(v["result"]))),
+                   ("original-owner-untouched", lambda E, v, o: unchanged(E, v["self"].fields["attach"], o["self"].fields["attach"]))],
+          options=dict(OPTS))
+
+    # ------------------------------------------------------------------ Compartments accessors (any number of compartments)
+    def sym_comps(S, extra=False):
+        """a Compartments list of m >= 0 compartments on one tree; compartment k is the window (P[k], C[k])"""
+        from swcgeom.core.swc_utils import get_types
+
+        t = sym_tree(S, "t", frozen=True)
+        m = S.int("m")
+        S.assume(m.z >= 0)
+        P, C = S.arr("int", n=m, name="P"), S.arr("int", n=m, name="C")
+        h = X.HandleList(Tree.Compartment, dict(attach=t, names=t.fields["names"], source="", types=get_types()), {},
+                         {"idx": ((2,), "int", None, [P.arr, C.arr])}, m.z)
+        return S.obj(Compartments, __items__=h, names=t.fields["names"]), t, P, C
+
+    def comps_setup(S, **kw):
+        cs, t, P, C = sym_comps(S)
+        return dict(self=cs, __ghost__=dict(tree=t, P=P, C=C), **kw)
+
+    def comps_pre(E, v, o):
+        t, P, C = (E.spec_extra[x] for x in ("tree", "P", "C"))
+        k = qj("k")
+        inr = lambda a: z3.And(a.get(k).z >= 0, a.get(k).z < nof(t))
+        return z3.ForAll([k], z3.Implies(z3.And(k >= 0, k < P.nz()), z3.And(inr(P), inr(C))))
+
+    CPRE = [("every-compartment-window-lies-in-the-tree", comps_pre)]
+
+    def rows_post(key_of):
+        def f(E, v, o):
+            t, P, C = (E.spec_extra[x] for x in ("tree", "P", "C"))
+            r, m = v["result"], P.nz()
+            cl = col(t, key_of(v))
+            if isinstance(r, NArr):  # no compartment at all: nothing to report
+                return z3.And(m == 0, len(r.items) == 0)
+            if not (isinstance(r, X.SRows) and r.inner == (2,) and r.uid not in E.entry_uids):
+                return False
+            k = qj("k")
+            return z3.And(r.nz() == m, z3.ForAll([k], z3.Implies(z3.And(k >= 0, k < m), z3.And(z3.Select(r.cell(0), k) == z3.Select(cl.arr, P.get(k).z),
+                                                                                              z3.Select(r.cell(1), k) == z3.Select(cl.arr, C.get(k).z)))))
+
+        return f
+
+    def shape_m2(E, v, o):
+        r = v["result"]
+        return isinstance(r, X.SRows) and r.inner == (2,)
+
+    R.add(f"{COMP}:Compartments.get_ndata", prop="C09",
+          variants={k: (lambda S, _k=k: comps_setup(S, key=_k)) for k in KEYS}, requires=CPRE,
+          ensures=[("one-row-(parent-value,child-value)-per-compartment-in-order-in-a-fresh-array", rows_post(lambda v: v["key"])),
+                   # FINDING: np.array([]) of an EMPTY Compartments (the segments of a one-node tree) has shape (0,), not the documented (n_sample, 2)
+                   ("shape-(n_sample,2)-also-for-no-compartments", shape_m2)],
+          options=dict(OPTS))
+
+    for k in KEYS:
+        R.add(f"{COMP}:Compartments.{k}", prop="C09", setup=lambda S: comps_setup(S), requires=CPRE,
+              ensures=[(f"one-row-(parent-{k},child-{k})-per-compartment-in-order-in-a-fresh-array", rows_post(lambda v, _k=k: _k))], options=dict(OPTS))
+
+    def stacked_post(names):
+        def f(E, v, o):
+            t, P, C = (E.spec_extra[x] for x in ("tree", "P", "C"))
+            r, m = v["result"], P.nz()
+            if not (isinstance(r, X.SRows) and r.inner == (2, len(names)) and r.uid not in E.entry_uids):
+                return False
+            k = qj("k")
+            body = [z3.Select(r.cell(a, j), k) == to_z3(col(t, nm).get((P, C)[a].get(k).z), "real") for a in (0, 1) for j, nm in enumerate(names)]
+            return z3.And(r.nz() == m, z3.ForAll([k], z3.Implies(z3.And(k >= 0, k < m), z3.And(*body))))
+
+        return f
+
+    # FINDING: on an EMPTY Compartments (a one-node tree has no segment) xyz()/xyzr() raise numpy's AxisError (a ValueError) instead of
+    # returning an array of shape (0, 2, 3) / (0, 2, 4): obligation exc/unexpected-ValueError
+    for fn, names in (("xyz", ("x", "y", "z")), ("xyzr", ("x", "y", "z", "r"))):
+        R.add(f"{COMP}:Compartments.{fn}", prop="C09", setup=lambda S: comps_setup(S), requires=CPRE,
+              ensures=[(f"(n_sample,2,{len(names)})-array-of-the-(parent,child)-{'-'.join(names)}-in-order", stacked_post(names))], options=dict(OPTS))
+
+    # ------------------------------------------------------------------ Branch.from_xyzr
+    def xyzr_setup(k):
+        def f(S):
+            n = S.int("n")
+            S.assume(n.z >= 0)
+            a = X.SRows([z3.Const(fresh_name(f"xyzr_{j}"), z3.ArraySort(z3.IntSort(), z3.RealSort())) for j in range(k)], n.z, (k,), "real")
+            a.frozen = True
+            return dict(cls=Branch, xyzr=a)
+
+        return f
+
+    def from_xyzr_shape(E, v, o):
+        from swcgeom.core.swc_utils import get_names
+
+        r = v["result"]
+        if not (isinstance(r, Obj) and r.cls is Branch and isinstance(r.fields.get("attach"), Obj) and r.fields["attach"].cls is DictSWC):
+            return False
+        a = r.fields["attach"]
+        return list(a.fields["ndata"].items) == KEYS and a.fields.get("names") == get_names() and r.fields.get("names") == get_names() and a.uid not in E.entry_uids
+
+    def from_xyzr_content(E, v, o):
+        m = o["xyzr"]
+        n, j = m.nz(), qj()
+        nd = v["result"].fields["attach"].fields["ndata"].items
+        want = dict(id=lambda jj: jj, type=lambda jj: z3.IntVal(3), pid=lambda jj: jj - 1,
+                    x=lambda jj: z3.Select(m.cells[0], jj), y=lambda jj: z3.Select(m.cells[1], jj), z=lambda jj: z3.Select(m.cells[2], jj),
+                    r=(lambda jj: z3.Select(m.cells[3], jj)) if m.inner == (4,) else (lambda jj: z3.RealVal(1)))
+        out = []
+        for k, a in nd.items():
+            if not isinstance(a, SArr) or a.kind != COLS[k]:
+                return False
+            out.append(z3.And(a.nz() == n, z3.ForAll([j], z3.Implies(z3.And(j >= 0, j < n), a.get(j).z == want[k](j)))))
+        idx = pidx(v["result"])
+        out.append(z3.And(idx.nz() == n, z3.ForAll([j], z3.Implies(z3.And(j >= 0, j < n), idx.get(j).z == j))))
+        return z3.And(*out)
+
+    R.add(f"{BRANCH}:Branch.from_xyzr", prop="C09",
+          variants={"(n,4)": xyzr_setup(4), "(n,3)": xyzr_setup(3)},
+          ensures=[("a-Branch-on-a-private-DictSWC-with-the-seven-SWC-columns", from_xyzr_shape),
+                   ("a-chain-0..n-1-of-type-3-with-the-given-coordinates-radius-given-or-1-window-is-all-of-it", from_xyzr_content),
+                   ("argument-untouched", lambda E, v, o: z3.And(*[a == b for a, b in zip(v["xyzr"].cells, o["xyzr"].cells)]))],
+          notes="the x/y/z(/r) columns of from_xyzr((n,4)) are numpy VIEWS onto the argument (xyzr[:, j] is a basic slice): stated content-wise only")
+
+
+# =====================================================================================================================
+# Tree: iteration, node(), soma(), segments, children of wrapped handles, keys
+def register_tree(R):
+    from swcgeom.core.compartment import Compartments
+    from swcgeom.core.tree import Tree
+
+    # ------------------------------------------------------------------ Tree.__iter__
+    def iter_post(E, v, o):
+        t, h = v["self"], handles(v)
+        if h is None or h.cls_ is not Tree.Node or h.fixed.get("attach") is not t or h.fixed.get("names") is not t.fields["names"]:
+            return False
+        k, n = qj("k"), nof(t)
+        return z3.And(zint(h.n) == n, z3.ForAll([k], z3.Implies(z3.And(k >= 0, k < n), z3.Select(h.col("idx"), k) == k)))
+
+    R.add(f"{TREE}:Tree.__iter__", prop="C09", setup=lambda S: dict(self=sym_tree(S, "t")),
+          ensures=[("one-handle-per-row-in-row-order", iter_post)], options=dict(OPTS))
+
+    # ------------------------------------------------------------------ Tree.node
+    # node(i) does not normalise i (tree.node(-1) is the last row): the handle stands for the row i wraps to
+    def node_post(E, v, o):
+        r, t = v["result"], v["self"]
+        if not (isinstance(r, Obj) and r.cls is Tree.Node and r.fields.get("attach") is t and r.fields.get("names") is t.fields["names"]):
+            return False
+        n, i, j = nof(t), to_z3(o["idx"], "int"), to_z3(r.fields["idx"], "int")
+        return z3.And(j >= -n, j < n, z3.If(j < 0, j + n, j) == z3.If(i < 0, i + n, i))
+
+    R.add(f"{TREE}:Tree.node", prop="C09", setup=lambda S: dict(self=sym_tree(S, "t"), idx=S.int("i")),
+          requires=[("position-in-[-n,n)", lambda E, v, o: z3.And(to_z3(v["idx"], "int") >= -nof(v["self"]), to_z3(v["idx"], "int") < nof(v["self"]))),],
+          ensures=[("handle-on-this-tree-standing-for-the-given-(wrapped)-row", node_post)])
+
+    # ------------------------------------------------------------------ Tree.soma
+    def not_soma(E, v, o):
+        t = v["self"]
+        return z3.And(to_z3(v["type_check"], "bool"), z3.Select(col(t, "type").arr, 0) != t.fields["types"].soma)
+
+    def soma_post(E, v, o):
+        r, t = v["result"], v["self"]
+        if not (isinstance(r, Obj) and r.cls is Tree.Node and r.fields.get("attach") is t and r.fields.get("idx") == 0):
+            return False
+        return z3.Not(not_soma(E, v, o))
+
+    R.add(f"{TREE}:Tree.soma", prop="C09",
+          variants={"checked": lambda S: dict(self=sym_tree(S, "t"), type_check=True), "unchecked": lambda S: dict(self=sym_tree(S, "t"), type_check=False),
+                    "flag-unknown": lambda S: dict(self=sym_tree(S, "t"), type_check=S.bool("tc"))},
+          raises={"ValueError": ("only-when-checking-and-row-0-is-not-of-soma-type", not_soma)},
+          ensures=[("handle-on-row-0-of-this-tree", soma_post)])
+
+    # ------------------------------------------------------------------ Tree.keys
+    R.add(f"{TREE}:Tree.keys", prop="C09", setup=lambda S: dict(self=sym_tree(S, "t", extra_cols=("level",))),
+          ensures=[("the-column-names-in-order", lambda E, v, o: isinstance(v["result"], PList) and v["result"].items == list(v["self"].fields["ndata"].items.keys()))])
+
+    # ------------------------------------------------------------------ Tree.get_compartments / get_segments
+    def segs_post(which):
+        def f(E, v, o):
+            t, res = v["self"], v["result"]
+            h = X._handles_of(res)
+            if not (isinstance(res, Obj) and res.cls is Compartments) or h is None or h.cls_ is not Tree.Compartment or h.fixed.get("attach") is not t:
+                return False
+            if "idx" not in h.vecs or h.vecs["idx"][0] != (2,):
+                return False
+            n, k = nof(t), qj("k")
+            pid, idc = col(t, "pid").arr, col(t, "id").arr
+            par, chi = z3.Select(h.vec("idx", 0), k), z3.Select(h.vec("idx", 1), k)
+            rng = z3.And(k >= 0, k < n - 1)
+            if which == "count":
+                return zint(h.n) == n - 1
+            if which == "pairs":  # segment k is the (parent, child) pair of row k+1, whatever the numbering
+                return z3.ForAll([k], z3.Implies(rng, z3.And(par == z3.Select(pid, k + 1), chi == z3.Select(idc, k + 1))))
+            if which == "rows":  # corollary for trees whose ids are their row numbers
+                i = qj("i")
+                ids_are_rows = z3.ForAll([i], z3.Implies(z3.And(i >= 0, i < n), z3.Select(idc, i) == i))
+                return z3.Implies(ids_are_rows, z3.ForAll([k], z3.Implies(rng, z3.And(chi == k + 1, par == z3.Select(pid, chi)))))
+
+        return f
+
+    for fn in ("get_compartments", "get_segments"):
+        R.add(f"{TREE}:Tree.{fn}", prop="C09", setup=lambda S: dict(self=sym_tree(S, "t")),
+              ensures=[("one-segment-per-non-root-row", segs_post("count")),
+                       ("segment-k-is-the-(parent-id,own-id)-pair-of-row-k+1-in-row-order", segs_post("pairs")),
+                       ("with-ids-as-row-numbers-segment-k-is-(parent-of-k+1,k+1)", segs_post("rows"))],
+              options=dict(OPTS))
+
+    # ------------------------------------------------------------------ Tree.Node.children, also through a wrapped (negative) handle
+    # Tree.node(i - n) yields a handle whose position is negative; its children are the rows naming the id AT THE WRAPPED ROW as parent.
+    # Ghost: crow(k) = row behind the k-th handle, crank(r) = place of row r in the result (both defined from the positions numpy's
+    # boolean-mask selection picked; definitions of fresh symbols).
+    crow = z3.Function("c9_crow", z3.IntSort(), z3.IntSort())
+    crank = z3.Function("c9_crank", z3.IntSort(), z3.IntSort())
+
+    def crow_def(E, v, o):
+        flt = getattr(E, "last_filter", None)
+        if flt is not None:
+            k = qj("k")
+            E.assume(z3.ForAll([k], z3.And(crow(k) == flt.kappa(k), crank(k) == flt.rho(k))))
+            E.assumptions.add("ghost definition: c9_crow(k) / c9_crank(r) = the position maps of the boolean-mask selection in Tree.Node.children")
+
+    def any_position(E, v, o):
+        n = v["self"]
+        i = to_z3(n.fields["idx"], "int")
+        return z3.And(i >= -nof(n.fields["attach"]), i < nof(n.fields["attach"]))
+
+    def children_post(which):
+        def f(E, v, o):
+            s_ = v["self"]
+            t = s_.fields["attach"]
+            n, i = nof(t), to_z3(s_.fields["idx"], "int")
+            idc, pidc = col(t, "id").arr, col(t, "pid").arr
+            me = z3.Select(idc, z3.If(i < 0, i + n, i))
+            h = handles(v)
+            if h is None or h.cls_ is not Tree.Node:
+                return False
+            if which == "handles-on-this-tree":
+                return h.fixed.get("attach") is t and h.fixed.get("names") is t.fields["names"]
+            m, idx = zint(h.n), h.col("idx")
+            k, k2, r = qj("k"), qj("k2"), qj("r")
+            if which == "every-handle-is-a-row-naming-the-wrapped-row's-id-as-parent":
+                return z3.ForAll([k], z3.Implies(z3.And(0 <= k, k < m), z3.And(0 <= crow(k), crow(k) < n, z3.Select(pidc, crow(k)) == me, z3.Select(idx, k) == z3.Select(idc, crow(k)))))
+            if which == "in-row-order-each-once":
+                return z3.ForAll([k, k2], z3.Implies(z3.And(0 <= k, k < k2, k2 < m), crow(k) < crow(k2)))
+            if which == "every-such-row-is-listed":
+                return z3.ForAll([r], z3.Implies(z3.And(0 <= r, r < n, z3.Select(pidc, r) == me), z3.And(0 <= crank(r), crank(r) < m, crow(crank(r)) == r)))
+
+        return f
+
+    R.add(f"{TREE}:Tree.Node.children", prop="C09",
+          setup=lambda S: dict(self=node_obj(S, sym_tree(S, "t", frozen=True))),
+          requires=[("handle-position-in-[-n,n)", any_position)], ghost_exit=crow_def,
+          ensures=[(w, children_post(w)) for w in ("handles-on-this-tree", "every-handle-is-a-row-naming-the-wrapped-row's-id-as-parent", "in-row-order-each-once", "every-such-row-is-listed")],
+          options=dict(OPTS, strict_index=False))
+
+
+# =====================================================================================================================
+# SWCLike / DictSWC: sizes, stacked coordinates, adjacency matrix, construction, dict views
+def register_swc(R, path_obj):
+    from swcgeom.core.swc import DictSWC
+    from swcgeom.core.swc_utils import get_names, get_types
+
+    def on_tree(S):
+        return dict(self=sym_tree(S, "t"))
+
+    def on_path(S):
+        return dict(self=path_obj(S, sym_tree(S, "t")))
+
+    def path_pre(E, v, o):
+        p = v["self"]
+        if "idx" not in p.fields:
+            return True
+        idx, t = pidx(p), p.fields["attach"]
+        j = qj()
+        return z3.ForAll([j], z3.Implies(z3.And(j >= 0, j < idx.nz()), z3.And(idx.get(j).z >= 0, idx.get(j).z < nof(t))))
+
+    PRE = [("a-path's-window-positions-are-rows-of-its-owner", path_pre)]
+
+    def size_of(x):
+        return pidx(x).nz() if "idx" in x.fields else nof(x)
+
+    def cell(x, key, j):
+        """entry j of column `key` as the view x reports it"""
+        if "idx" in x.fields:
+            return col(x.fields["attach"], key).get(pidx(x).get(j).z).z
+        return col(x, key).get(j).z
+
+    BOTH = {"tree": on_tree, "path": on_path}
+
+    for fn, delta in (("number_of_nodes", 0), ("number_of_edges", -1), ("__len__", 0)):
+        R.add(f"{SWC}:SWCLike.{fn}", prop="C09", variants=BOTH, requires=PRE,
+              ensures=[("rows-of-the-view" + ("-minus-one" if delta else ""), (lambda d: lambda E, v, o: to_z3(v["result"], "int") == size_of(v["self"]) + d)(delta))])
+
+    # ------------------------------------------------------------------ the seven column accessors
+    def column_post(k):
+        def f(E, v, o):
+            r, x = v["result"], v["self"]
+            if "idx" not in x.fields:
+                return r is col(x, k)  # the owner hands out the column itself (aliasing intended)
+            if k in ("id", "pid"):  # a path renumbers its nodes
+                j, n = qj(), size_of(x)
+                return z3.And(r.uid not in E.entry_uids, r.nz() == n, z3.ForAll([j], z3.Implies(z3.And(j >= 0, j < n), r.get(j).z == (j if k == "id" else j - 1))))
+            j, n = qj(), size_of(x)
+            return z3.And(r.uid not in E.entry_uids, r.nz() == n, z3.ForAll([j], z3.Implies(z3.And(j >= 0, j < n), r.get(j).z == cell(x, k, j))))
+
+        return f
+
+    for k in KEYS:
+        variants = BOTH if k not in ("id", "pid") else {"tree": on_tree}  # Path overrides id() / pid() (verified above)
+        R.add(f"{SWC}:SWCLike.{k}", prop="C09", variants=variants, requires=PRE,
+              ensures=[(f"column-{k}-of-the-view-(the-owner's-column-itself-or-a-fresh-gather-in-window-order)", column_post(k))])
+
+    # ------------------------------------------------------------------ xyz / xyzw / xyzr
+    def stack_post(names):
+        def f(E, v, o):
+            r, x = v["result"], v["self"]
+            if type(r).__name__ != "S2Arr" or r.transposed or r.k != len(names) or r.kind != "real" or r.uid in E.entry_uids:
+                return False
+            n, j = size_of(x), qj()
+            body = [z3.Select(r.cols[c], j) == (z3.RealVal(1) if nm == "1" else cell(x, nm, j)) for c, nm in enumerate(names)]
+            return z3.And(r.nz() == n, z3.ForAll([j], z3.Implies(z3.And(j >= 0, j < n), z3.And(*body))))
+
+        return f
+
+    for fn, names in (("xyz", ("x", "y", "z")), ("xyzw", ("x", "y", "z", "1")), ("xyzr", ("x", "y", "z", "r"))):
+        R.add(f"{SWC}:SWCLike.{fn}", prop="C09", variants=BOTH, requires=PRE,
+              ensures=[(f"fresh-(n,{len(names)})-array-row-j-is-({','.join(names)})-of-node-j", stack_post(names))])
+
+    # ------------------------------------------------------------------ get_adjacency_matrix
+    def pair_outside(E, v, o):
+        x = v["self"]
+        n, k = size_of(x), qj("k")
+        par, chi = cell(x, "pid", k + 1), cell(x, "id", k + 1)
+        if "idx" in x.fields:  # a path renumbers: node j has id j and parent j-1
+            par, chi = k, k + 1
+        return z3.Exists([k], z3.And(k >= 0, k < n - 1, z3.Not(z3.And(par >= 0, par < n, chi >= 0, chi < n))))
+
+    def adjacency_post(E, v, o):
+        import numpy as np
+
+        r, x = v["result"], v["self"]
+        if not isinstance(r, X.CooRecord) or r.dtype is not np.int32:
+            return False
+        n, k = size_of(x), qj("k")
+        m = z3.If(n >= 1, n - 1, z3.IntVal(0))
+        par, chi = cell(x, "pid", k + 1), cell(x, "id", k + 1)
+        if "idx" in x.fields:
+            par, chi = k, k + 1
+        return z3.And(to_z3(r.shape[0], "int") == n, to_z3(r.shape[1], "int") == n, r.data.nz() == m, r.row.nz() == m, r.col.nz() == m,
+                      z3.ForAll([k], z3.Implies(z3.And(k >= 0, k < m), z3.And(r.data.get(k).z == 1, r.row.get(k).z == par, r.col.get(k).z == chi))))
+
+    R.add(f"{SWC}:SWCLike.get_adjacency_matrix", prop="C09", variants=BOTH, requires=PRE,
+          raises={"ValueError": ("only-when-a-(parent,child)-pair-names-no-row", pair_outside)},
+          ensures=[("n-by-n-int32-matrix-whose-triplets-are-exactly-(parent-id,own-id,1)-of-rows-1..n-1-in-order", adjacency_post),
+                   ("every-pair-names-rows", lambda E, v, o: z3.Not(pair_outside(E, v, o)))],
+          notes="scipy.sparse.coo_matrix is a recording model: entry (p, c) of the matrix is the sum of data over the triplets (p, c)")
+
+    # ------------------------------------------------------------------ DictSWC.__init__ / keys / values / items
+    def init_setup(comments, names):
+        def f(S):
+            t = sym_tree(S, "t", extra_cols=("level",))
+            kw = PDict(dict(t.fields["ndata"].items))
+            cm = None if comments is None else PList(["# a", "# b"])
+            if cm is not None:
+                cm.frozen = True
+            return dict(self=S.obj(DictSWC), source="cell.swc", comments=cm, names=(get_names() if names else None), kwargs=kw)
+
+        return f
+
+    def init_post(E, v, o):
+        d, kw = v["self"], o["kwargs"]
+        nd = d.fields.get("ndata")
+        if not isinstance(nd, PDict) or nd.items is None or list(nd.items) != list(kw.items):
+            return False
+        cm, c0 = d.fields.get("comments"), o["comments"]
+        if not isinstance(cm, PList) or cm.items != ([] if c0 is None else c0.items):
+            return False
+        if not (d.fields.get("source") == "cell.swc" and d.fields.get("names") == get_names() and d.fields.get("types") == get_types()):
+            return False
+        # every column holds what was given under that name (the library keeps the very arrays; only their content is demanded here)
+        return z3.And(*[z3.And(nd.items[k].nz() == kw.items[k].nz(), nd.items[k].arr == kw.items[k].arr) for k in nd.items])
+
+    R.add(f"{SWC}:DictSWC.__init__", prop="C09",
+          variants={f"comments-{'given' if c else 'omitted'}-names-{'given' if nm else 'omitted'}": init_setup(c, nm) for c in (None, True) for nm in (False, True)},
+          ensures=[("one-column-per-keyword-with-the-given-content-comments-kept-names-and-types-defaulted", init_post)])
+
+    def view_post(what):
+        def f(E, v, o):
+            r, nd = v["result"], v["self"].fields["ndata"].items
+            if not isinstance(r, PList) or r.items is None or len(r.items) != len(nd):
+                return False
+            if what == "keys":
+                return r.items == list(nd)
+            if what == "values":
+                return all(a is b for a, b in zip(r.items, nd.values()))
+            return all(isinstance(a, tuple) and a[0] == k and a[1] is b for a, (k, b) in zip(r.items, nd.items()))
+
+        return f
+
+    for fn in ("keys", "values", "items"):
+        R.add(f"{SWC}:DictSWC.{fn}", prop="C09", setup=lambda S: dict(self=sym_tree(S, "t", extra_cols=("level",))),
+              ensures=[(f"the-{fn}-of-the-column-table-in-order-columns-by-identity", view_post(fn))])
